@@ -298,6 +298,13 @@ def main():
         inconclusive.append("observation floor not reached: " + ", ".join(unmet))
     if hangs:
         inconclusive.append("%d case(s) hit the wall-clock watchdog or ended abnormally (first: %s)" % (len(hangs), json.dumps(hangs[0].get("case"))))
+        # keep what the workers printed (goroutine dumps) for diagnosis: the work directory is reused
+        try:
+            os.makedirs(os.path.join(ROOT, "replays"), exist_ok=True)
+            with open(os.path.join(ROOT, "replays", "%s-%s-seed%s-abnormal-ends.json" % (cid, tier, seed)), "w") as f:
+                json.dump([{"case": h.get("case"), "status": h.get("status"), "dump": (h.get("dump") or "")[-400000:]} for h in hangs[:4]], f, indent=1)
+        except Exception:
+            pass
     if done < expected - len(hangs) - len([d for d in died if d["status"] == "died"]):
         inconclusive.append("only %d of %d cases completed" % (done, expected))
 
